@@ -64,6 +64,18 @@ def label_source():
                         if idx is not None: exp[s.task_name].pop(idx)
                     if after != exp:
                         fails.append({'key': f"post_send {l1}/{l2}/{order}", 'failed_clauses': [f"C16: after post_send of ({s.task_name}, cron={s.cron}, time={s.time}) the lists are {after}, expected {exp}"]}); break
+    # entries with labels of their own: each listed schedule carries ITS entry's labels updated with the task's labels, and listing changes nothing
+    fresh_registry(); b = InMemoryBroker(); n += 1
+    async def g(): pass
+    tk = b.register_task(g, task_name='lab', base='b', schedule=[{'cron': '1 * * * *', 'labels': {'only': 'first', 'base': 'x'}}, {'cron': '2 * * * *'}, {'time': T1, 'labels': {'third': 3}}])
+    before = {k: v for k, v in tk.labels.items() if k != 'schedule'}
+    for round_ in (1, 2):
+        got = asyncio.run(LabelScheduleSource(b).get_schedules())
+        have = [{k: v for k, v in s.labels.items() if k != 'schedule'} for s in got]
+        want = [{'base': 'b', 'only': 'first'}, {'base': 'b'}, {'base': 'b', 'third': 3}]          # an entry's own labels, updated with the task's labels (the task's value wins for a key in both)
+        if have != want: fails.append({'key': f'entry-labels/listing{round_}', 'failed_clauses': [f"C16: listing #{round_} of a task with labels {before} and per-entry labels gave schedule labels {have}, expected {want} (labels of one entry must not show up in another entry or in a later listing)"]}); break
+    after = {k: v for k, v in tk.labels.items() if k != 'schedule'}
+    if after != before: fails.append({'key': 'entry-labels/task-labels', 'failed_clauses': [f"C16: listing the schedules changed the task's own labels from {before} to {after}"]})
     # a task of ANOTHER broker registered globally under the same name as one of this broker's own tasks (shared-broker tasks): the own task and its schedules win
     fresh_registry(); b = InMemoryBroker(); other = InMemoryBroker(); n += 1
     async def f(): pass
@@ -168,7 +180,7 @@ async def kiq_case(asyncs, fail_at):
     return pr
 
 # ---------------------------------------------------------------- (d)
-def loop_case(start_off, horizon, oneshots, crons, failing_source, failing_send, slow_listing=0.0, host_offset_h=0.0, check_oneshots=None, stable_ids=False, entry='loop'):
+def loop_case(start_off, horizon, oneshots, crons, failing_source, failing_send, slow_listing=0.0, host_offset_h=0.0, check_oneshots=None, stable_ids=False, entry='loop', base_hms=(12, 0, 0)):
     """oneshots: list of offsets (s) from BASE; crons: list of cron expressions"""
     import taskiq.cli.scheduler.run as run_mod
     from taskiq import TaskiqScheduler, ScheduleSource
@@ -176,7 +188,7 @@ def loop_case(start_off, horizon, oneshots, crons, failing_source, failing_send,
     from taskiq.abc.broker import AsyncBroker
     import pytz
     fresh_registry()
-    BASE = _dt.datetime(2026, 3, 1, 12, 0, 0, tzinfo=pytz.UTC)
+    BASE = _dt.datetime(2026, 3, 1, *base_hms, tzinfo=pytz.UTC)
     loop = VirtualLoop(); asyncio.set_event_loop(loop)
     class VDateTime(_dt.datetime):
         @classmethod
@@ -250,7 +262,8 @@ def loop_case(start_off, horizon, oneshots, crons, failing_source, failing_send,
                 u = BASE + _dt.timedelta(minutes=mi)
                 return u + off_ if isinstance(off_, _dt.timedelta) else u.astimezone(zoneinfo.ZoneInfo(off_))
             want = [mi for mi in range(first, last + 1) if pycron.is_now(expr_, wall(mi))]
-            if mins != want: pr.append(f"C13: cron schedule {expr_!r} with offset {off_!r} declared in a task's schedule label was sent in minutes {mins} of {BASE.isoformat()}, expected {want}")
+            if mins != want:
+                for pid in ('C13', 'C15'): pr.append(f"{pid}: cron schedule {expr_!r} with offset {off_!r} declared in a task's schedule label was sent in minutes {mins} of {BASE.isoformat()}, expected {want}")
             continue
         want = [mi for mi in range(first, last + 1) if pycron.is_now(c, BASE + _dt.timedelta(minutes=mi))]
         if host_offset_h and mins != want: pr.append(f"C13: cron schedule {c!r} sent by the scheduler loop in minutes {mins} of {BASE.isoformat()} on a host with UTC offset {host_offset_h:+}h, expected {want} (UTC is the reference when no offset is given)")
@@ -294,6 +307,8 @@ def run(sc):
         for slow in (1.5, 3.0):          # listing latency above 1 s: the delay must be computed AFTER the listing, otherwise the send is late by the latency
             pr = loop_case(30.0, 330.0, [200.0, 250.5], ['* * * * *'], False, False, slow_listing=slow, check_oneshots=True); n += 1
             if pr: fails.append({'key': f"loop/start+30.0/slow-listing={slow}/one-shots", 'failed_clauses': pr})
+        pr = loop_case(20.25, 330.0, [45.0, 90.0, 150.0, 200.0], ['* * * * *'], False, False, base_hms=(23, 57, 0)); n += 1          # across minute 59, the hour and the day boundary
+        if pr: fails.append({'key': "loop/base=23:57/across-midnight", 'failed_clauses': pr})
         pr = loop_case(0.4, 330.0, [90.0, 150.0], ['* * * * *'], False, False, stable_ids='async'); n += 1
         if pr: fails.append({'key': "loop/stable-ids/async-post_send", 'failed_clauses': pr})
         for start_off in (0.4, 59.7):          # a send that fails once must not affect later occurrences, also for sources that list the same schedule ids at every poll
